@@ -10,13 +10,13 @@ From Coq Require Import ZArith List Bool Lia Arith.
 From KV Require Import Base.Outcome Base.Num C19.Model C06.Model.
 From KV Require Import C04.Transport C04.Resampler C04.StaticData C04.StaticSound.
 From KV Require Import C04.ProofsTransport C04.ProofsSound.
-From KV Require C18.Model C18.ProofsSched.
-From KV Require Import C09.Model C09.ProofsShell.
+From KV Require Import C09.Model C09.ProofsShell C09.ProofsDecoder.
 Import ListNotations.
 Local Open Scope Z_scope.
 
-Module D18 := KV.C18.Model.
-Module S18 := KV.C18.ProofsSched.
+
+(** iterations the decode loop may need: every frame of the audio may be preceded by [E - 1] empty packets *)
+Definition need_fuel (len E : nat) : nat := (len * E)%nat.
 
 Section Tape.
   Context {T : Type} {NT : Num T}.
@@ -45,7 +45,8 @@ Section Tape.
   Hypothesis HBmax : B < u64_max.
   Hypothesis Hfuel : B < Z.of_nat fuel.
   Hypothesis Hloop : req_loop B lr.
-  Hypothesis Haudio : (length audio <= fuel)%nat.
+  Variable EP : nat.                        (* fewer than [EP] empty packets in a row *)
+  Hypothesis Haudio : (need_fuel (length audio) EP <= fuel)%nat.
 
   Lemma slice_ok_src : slice_ok A src slice.
   Proof.
@@ -281,14 +282,16 @@ Section Tape.
   Qed.
 
   (** ** one iteration of the decoder thread's loop *)
-  Variables psize land : nat -> nat.
-
-  Lemma q_frame_at_index_any : forall (ps ld : nat -> nat) (q : producer A) j,
-    q_slice q = slice -> q_n q = N -> S18.inv audio (q_dec q) -> pl j = true ->
-    exists dec', q_frame_at_index A azero fuel audio ps ld q (t_pos (tr_at j))
-                 = Ok (Some (rf_frame (prec (S j))), dec') /\ S18.inv audio dec'.
+  Lemma q_frame_at_index_any :
+    forall (D : Type) (dpos dsize : D -> nat) (dnext : D -> D) (dseek : D -> nat -> D) (derr : D -> bool),
+    conforming A audio D dpos dsize dnext dseek derr EP ->
+    forall (q : producer A D) j,
+    q_slice q = slice -> q_n q = N -> dinv A audio D dpos (q_dec q) -> pl j = true ->
+    exists dec', q_frame_at_index A azero fuel audio D dpos dsize dnext dseek derr q (t_pos (tr_at j))
+                 = Ok (Some (rf_frame (prec (S j))), dec') /\ dinv A audio D dpos dec'.
   Proof.
-    intros ps ld q j Hsl Hn Hinv Hpl. unfold q_frame_at_index. rewrite Hsl, Hn.
+    intros D dpos dsize dnext dseek derr (Herr & Hnext & Hseek & idle & Hidle) q j Hsl Hn Hinv Hpl.
+    unfold q_frame_at_index. rewrite Hsl, Hn.
     pose proof (wf_at j) as (Hp0 & HpB & _). pose proof N_slice as HN. pose proof N_nonneg as HN0.
     assert (Hd : sub_chk (match slice with Some (_, e) => e | None => N end)
                          (match slice with Some (st, _) => st | None => 0 end) = Ok N).
@@ -309,18 +312,40 @@ Section Tape.
       assert (Hi : (i < length audio)%nat) by (unfold i; lia).
       assert (Hget : src_get src (off + t_pos (tr_at j)) = nth i audio azero) by reflexivity.
       rewrite Hget.
-      destruct (D18.chunk_frame (D18.chunk (q_dec q)) i) as [fr|] eqn:Ec.
+      destruct (chunk_frame (ds_chunk (q_dec q)) i) as [fr|] eqn:Ec.
       + exists (q_dec q). split; [|exact Hinv].
-        apply (S18.chunk_frame_sound audio _ _ _ (proj2 Hinv)) in Ec.
+        apply (chunk_frame_sound A audio _ _ _ (proj2 Hinv)) in Ec.
         f_equal. f_equal. f_equal. symmetry. now apply nth_error_nth.
-      + destruct Hinv as [Hdp Hc].
-        destruct (i <? D18.cur (q_dec q))%nat eqn:El.
-        * apply (S18.decode_loop_correct azero audio ps fuel); [split; [reflexivity | exact Hc] | |];
-            cbn [D18.dpos]; unfold D18.dec_seek; lia.
-        * apply Nat.ltb_ge in El.
-          apply (S18.decode_loop_correct azero audio ps fuel); [split; assumption | lia | lia].
+      + (* the loop: at most (i - position) * EP + EP iterations, and that is within the fuel *)
+        assert (Hbudget : forall d, (dpos d <= i)%nat -> ((i - dpos d) * EP + idle d < fuel)%nat).
+        { intros d Hd'. destruct (Hidle d) as [HdE _]. unfold need_fuel in Haudio.
+          assert (H1 : ((i - dpos d) * EP <= (length audio - 1) * EP)%nat) by (apply Nat.mul_le_mono_r; lia).
+          assert (H2 : ((length audio - 1) * EP + EP = length audio * EP)%nat).
+          { replace (length audio) with (S (length audio - 1)) at 2 by lia. cbn [Nat.mul]. lia. }
+          set (X := ((i - dpos d) * EP)%nat) in *. set (Y := ((length audio - 1) * EP)%nat) in *.
+          set (W := (length audio * EP)%nat) in *. clearbody X Y W. lia. }
+        destruct (i <? ds_cur (q_dec q))%nat eqn:El.
+        * apply (decode_loop_ok A azero audio D dpos dsize dnext derr EP idle Herr Hnext Hidle).
+          -- split; [reflexivity | exact (proj2 Hinv)].
+          -- cbn [sched_seek ds_dec]. pose proof (Hseek (ds_dec (q_dec q)) i). lia.
+          -- cbn [sched_seek ds_dec]. apply Hbudget. apply Hseek.
+        * apply Nat.ltb_ge in El. destruct Hinv as [Hcur Hc]. rewrite Hcur in El.
+          apply (decode_loop_ok A azero audio D dpos dsize dnext derr EP idle Herr Hnext Hidle).
+          -- split; assumption.
+          -- lia.
+          -- apply Hbudget. exact El.
   Qed.
-  Definition q_frame_at_index_ok := q_frame_at_index_any psize land.
+
+  (** the decoder of the streaming sound: any conforming one *)
+  Variable D : Type.
+  Variable dpos : D -> nat.
+  Variable dsize : D -> nat.
+  Variable dnext : D -> D.
+  Variable dseek : D -> nat -> D.
+  Variable derr : D -> bool.
+  Variable d0 : D.
+  Hypothesis Hconf : conforming A audio D dpos dsize dnext dseek derr EP.
+  Definition q_frame_at_index_ok := q_frame_at_index_any D dpos dsize dnext dseek derr Hconf.
 
   (** ** the fractional position: how often the [while fractional_position >= 1.0] loop runs *)
   Fixpoint fcarry (fl : nat) (fp : T) : option (T * nat) :=
@@ -547,10 +572,10 @@ Section Tape.
   Notation shell := (shell T V P).
   Notation s_step := (static_step powf A azero F interp cast ascale V vinterp silence identity amp P pinterp panned fuel).
   Notation y_step := (stream_step powf A azero F interp cast ascale V vinterp silence identity amp P pinterp panned fuel
-                                  audio psize land cap).
+                                  audio D dpos dsize dnext dseek derr cap).
   Notation s_run := (run_static powf A azero F interp cast ascale V vinterp silence identity amp P pinterp panned fuel).
   Notation y_run := (run_stream powf A azero F interp cast ascale V vinterp silence identity amp P pinterp panned fuel
-                                audio psize land cap).
+                                audio D dpos dsize dnext dseek derr cap).
   Notation sh_update := (shell_update powf V vinterp identity P pinterp).
   Notation sh_read := (@shell_read_commands T NT V silence identity P).
   Notation mirror_ok := (@ProofsShell.mirror_ok T V P).
@@ -567,12 +592,12 @@ Section Tape.
       (2 <= avail -> cur = idx) -> obs_rel (OPos px st idx fp 0) (OPos py st cur fp avail).
 
   (** the simulation invariant *)
-  Definition Inv (x : static T A V P) (w : stream T A V P) : Prop :=
+  Definition Inv (x : static T A V P) (w : stream T A V P D) : Prop :=
     exists hx hz m fin fp cur px py (sh : shell) dec st,
       x = {| x_core := core_at (hx + 3) fp (h_rate sh) px; x_shell := sh |} /\
       w = {| w_prod := {| q_status := st; q_dec := dec; q_slice := slice; q_n := N; q_tr := tr_at (hz + m - 1) |};
              w_sound := {| z_core := yc hz m fin fp cur py (flag_at (hx + 3)); z_shell := sh |} |} /\
-      Rel hx hz m fin /\ mirror_ok sh /\ S18.inv audio dec /\
+      Rel hx hz m fin /\ mirror_ok sh /\ dinv A audio D dpos dec /\
       (st = Running -> pl (hz + m - 1) = true) /\
       nsignneg (p_raw (h_rate sh)) = false.
 
@@ -593,7 +618,7 @@ Section Tape.
     end.
 
   Lemma decode_sim : forall x w w', Inv x w ->
-    decode_step A azero V P fuel audio psize land cap w = Ok w' -> Inv x w'.
+    decode_step A azero V P fuel audio D dpos dsize dnext dseek derr cap w = Ok w' -> Inv x w'.
   Proof.
     intros x w w' (hx & hz & m & fin & fp & cur & px & py & sh & dec & st & Hx & Hw & HRel & Hm & Hinv & Hst & Hr) H.
     subst w. unfold decode_step in H. cbn [w_prod w_sound q_status z_core z_shell] in H.
@@ -724,7 +749,7 @@ Section Tape.
     - cbn [run_stream] in H. inversion H; subst. exists []. split; [reflexivity | constructor].
     - cbn [run_stream run_static] in *. destruct e as [|c|len dt i].
       + cbn [stream_step static_step] in *.
-        destruct (decode_step A azero V P fuel audio psize land cap w) as [w'| |] eqn:Ed; cbn [obind] in *; try discriminate.
+        destruct (decode_step A azero V P fuel audio D dpos dsize dnext dseek derr cap w) as [w'| |] eqn:Ed; cbn [obind] in *; try discriminate.
         destruct (y_run w' evs) as [[os s2]| |] eqn:Er; cbn [obind] in H; try discriminate.
         injection H as Hys Hs. cbn [orb] in Hs. subst s2 ys.
         destruct (IH x w' (decode_sim x w w' HInv Ed) Hrates _ Er) as (xs & Hxs & Hrel).
@@ -760,7 +785,7 @@ Section Tape.
   Lemma init_inv :
     exists x0 w0,
       static_new A azero V silence identity P pcenter fuel sr src slice g = Ok x0 /\
-      stream_new A azero V silence identity P pcenter audio land sr slice g = Ok w0 /\
+      stream_new A azero V silence identity P pcenter audio D dpos dseek d0 sr slice g = Ok w0 /\
       Inv x0 w0 /\ h_rate (x_shell x0) = param_new (g_rate g) n1 /\
       (* what the two handles report before the first callback *)
       sh_pos (x_core x0) = y_pos (z_core (w_sound w0)) /\ h_mirror (x_shell x0) = h_mirror (z_shell (w_sound w0)).
@@ -787,7 +812,7 @@ Section Tape.
       rewrite Hn. cbn [obind]. rewrite <- Hstart_def, <- Hlr_def. fold t0. reflexivity. }
     split; [|split; [reflexivity|]; split; reflexivity].
     exists 0%nat, 0%nat, 1%nat, false, n0, (t_pos t0), px, px, sh0,
-           {| D18.dpos := D18.dec_seek land (Z.to_nat start); D18.cur := D18.dec_seek land (Z.to_nat start); D18.chunk := None |},
+           {| ds_dec := dseek d0 (Z.to_nat start); ds_cur := dpos (dseek d0 (Z.to_nat start)); ds_chunk := None |},
            Running.
     split; [reflexivity|]. split; [change (0 + 3)%nat with 3%nat; rewrite flag_3; reflexivity|]. split.
     { exists 0%nat. split; [reflexivity|]. split; [rewrite pl_0; reflexivity|]. split; [intros j Hj; lia | left; reflexivity]. }
@@ -796,23 +821,30 @@ Section Tape.
   Qed.
 
   (** ** the decoder's packetisation and seek landings are invisible *)
-  Variables psize' land' : nat -> nat.
+  Variable D' : Type.
+  Variable dpos' : D' -> nat.
+  Variable dsize' : D' -> nat.
+  Variable dnext' : D' -> D'.
+  Variable dseek' : D' -> nat -> D'.
+  Variable derr' : D' -> bool.
+  Variable d0' : D'.
+  Hypothesis Hconf' : conforming A audio D' dpos' dsize' dnext' dseek' derr' EP.
   Notation y_step' := (stream_step powf A azero F interp cast ascale V vinterp silence identity amp P pinterp panned fuel
-                                   audio psize' land' cap).
+                                   audio D' dpos' dsize' dnext' dseek' derr' cap).
   Notation y_run' := (run_stream powf A azero F interp cast ascale V vinterp silence identity amp P pinterp panned fuel
-                                 audio psize' land' cap).
+                                 audio D' dpos' dsize' dnext' dseek' derr' cap).
 
   (** two streaming systems over two conforming decoders of the same audio: the same sound state, the schedulers at
       the same place of the tape, each decoder's bookkeeping consistent with the audio *)
-  Definition PInv (w w' : stream T A V P) : Prop :=
+  Definition PInv (w : stream T A V P D) (w' : stream T A V P D') : Prop :=
     w_sound w = w_sound w' /\
     exists q st dec dec',
       w_prod w = {| q_status := st; q_dec := dec; q_slice := slice; q_n := N; q_tr := tr_at q |} /\
       w_prod w' = {| q_status := st; q_dec := dec'; q_slice := slice; q_n := N; q_tr := tr_at q |} /\
-      S18.inv audio dec /\ S18.inv audio dec' /\ (st = Running -> pl q = true).
+      dinv A audio D dpos dec /\ dinv A audio D' dpos' dec' /\ (st = Running -> pl q = true).
 
   Lemma decode_indep : forall w w', PInv w w' ->
-    match decode_step A azero V P fuel audio psize land cap w, decode_step A azero V P fuel audio psize' land' cap w' with
+    match decode_step A azero V P fuel audio D dpos dsize dnext dseek derr cap w, decode_step A azero V P fuel audio D' dpos' dsize' dnext' dseek' derr' cap w' with
     | Ok w1, Ok w1' => PInv w1 w1'
     | _, _ => False
     end.
@@ -832,7 +864,7 @@ Section Tape.
     destruct (q_frame_at_index_ok {| q_status := Running; q_dec := dec; q_slice := slice; q_n := N; q_tr := tr_at q |}
                 q eq_refl eq_refl Hi Hst) as (d1 & Hf1 & Hi1).
     rewrite Hf1.
-    pose proof (q_frame_at_index_any psize' land'
+    pose proof (q_frame_at_index_any D' dpos' dsize' dnext' dseek' derr' Hconf'
                   {| q_status := Running; q_dec := dec'; q_slice := slice; q_n := N; q_tr := tr_at q |}
                   q eq_refl eq_refl Hi' Hst) as Hf2.
     destruct Hf2 as (d2 & Hf2 & Hi2). rewrite Hf2. cbn [obind q_n q_tr]. rewrite incr_at. cbn [obind].
@@ -848,8 +880,8 @@ Section Tape.
     induction evs as [|e evs IH]; intros w w' HP; [reflexivity|].
     cbn [run_stream]. destruct e as [|c|len dt i]; cbn [stream_step].
     - pose proof (decode_indep w w' HP) as Hd.
-      destruct (decode_step A azero V P fuel audio psize land cap w) as [w1| |]; try contradiction.
-      destruct (decode_step A azero V P fuel audio psize' land' cap w') as [w1'| |]; try contradiction.
+      destruct (decode_step A azero V P fuel audio D dpos dsize dnext dseek derr cap w) as [w1| |]; try contradiction.
+      destruct (decode_step A azero V P fuel audio D' dpos' dsize' dnext' dseek' derr' cap w') as [w1'| |]; try contradiction.
       cbn [obind]. rewrite (IH w1 w1' Hd). reflexivity.
     - destruct HP as (Hz & Hrest). rewrite <- Hz.
       destruct (stream_on_start A V silence identity P (w_sound w) c) as [z o]. cbn [obind].
@@ -864,8 +896,8 @@ Section Tape.
 
   Lemma init_indep :
     exists w0 w0',
-      stream_new A azero V silence identity P pcenter audio land sr slice g = Ok w0 /\
-      stream_new A azero V silence identity P pcenter audio land' sr slice g = Ok w0' /\ PInv w0 w0'.
+      stream_new A azero V silence identity P pcenter audio D dpos dseek d0 sr slice g = Ok w0 /\
+      stream_new A azero V silence identity P pcenter audio D' dpos' dseek' d0' sr slice g = Ok w0' /\ PInv w0 w0'.
   Proof.
     assert (Hn : match slice with Some (st, e) => sub_chk e st | None => Ok (Z.of_nat (length audio)) end = Ok N).
     { rewrite N_slice. unfold slice_wf in Hslice. destruct slice as [[a b]|]; [|reflexivity]. rewrite sub_chk_ok by lia. reflexivity. }
